@@ -965,14 +965,21 @@ func (b *BaseStore) replicationLoadComplete(ctx context.Context, logs []ipfslog.
 
 	b.Logger().Debug("replication load complete")
 	entries := []ipfslog.Entry{}
+	joined := 0
 	for _, log := range logs {
 		_, err := oplog.Join(log, -1)
 		if err != nil {
+			// a rejected log must not prevent the other logs of the batch from being merged
 			b.Logger().Error("unable to join logs", zap.Error(err))
-			return
+			continue
 		}
 
+		joined++
 		entries = append(entries, log.GetEntries().Slice()...)
+	}
+
+	if joined == 0 && len(logs) > 0 {
+		return
 	}
 
 	err := b.updateIndex(ctx)
